@@ -693,6 +693,22 @@ def integer_contents_are_signed(model: Model, run: Run, rule: str = "S11-integer
                     n += 1
                     signed = any(k.arg == "signed" and isinstance(k.value, ast.Constant) and k.value.value is True for k in x.keywords) or \
                         (len(x.args) >= 3 and isinstance(x.args[2], ast.Constant) and x.args[2].value is True)
+                    if not signed:
+                        # ... or the sign is dealt with by hand around an unsigned read of the magnitude: the top bit of the first octet is
+                        # tested, and the result is negated (or has 2**n subtracted) on that path
+                        tests_top_bit = any(isinstance(y, ast.BinOp) and isinstance(y.op, ast.BitAnd) and
+                                            any(isinstance(z, ast.Constant) and z.value in (0x80, 128) for z in (y.left, y.right)) and
+                                            any(isinstance(z, ast.Subscript) and isinstance(z.slice, ast.Constant) and z.slice.value == 0 for z in (y.left, y.right))
+                                            for y in walk_no_nested(f.node)) or \
+                            any(isinstance(y, ast.Compare) and isinstance(y.left, ast.Subscript) and isinstance(y.left.slice, ast.Constant) and y.left.slice.value == 0 and
+                                isinstance(y.comparators[0], ast.Constant) and y.comparators[0].value in (127, 128, 0x7F, 0x80) for y in walk_no_nested(f.node))
+                        negates = any((isinstance(y, ast.AugAssign) and isinstance(y.op, ast.Mult) and isinstance(y.value, (ast.UnaryOp, ast.Constant)) and
+                                       (norm(y.value) in ("-1", "(-1)"))) or
+                                      (isinstance(y, ast.UnaryOp) and isinstance(y.op, ast.USub) and not isinstance(y.operand, ast.Constant)) or
+                                      (isinstance(y, (ast.AugAssign, ast.BinOp)) and isinstance(y.op, ast.Sub) and
+                                       any(isinstance(z, ast.BinOp) and isinstance(z.op, (ast.LShift, ast.Pow)) for z in ast.walk(y)))
+                                      for y in walk_no_nested(f.node))
+                        signed = tests_top_bit and negates
                     run.ob(rule, signed, {"function": f.name, "call": norm(x)[:60]})
                     if not signed:
                         run.fail(Finding(rule, f.qualname, norm(x)[:80], f"{f.name} reads content octets with `{norm(x)[:60]}` (unsigned): a value whose first content octet has the top bit set "
